@@ -13,7 +13,8 @@ Inductive sev :=
 | SDeferLock (l : string) | SDeferUnlock (l : string) | SDeferRLock (l : string) | SDeferRUnlock (l : string)
 | SClose (c : string) | SDeferClose (c : string) | SRecv (c : string) | SSend (c : string)
 | SCall (f : string) | SDeferCall (f : string) | SGo (f : string) | SYield (p : string) | SAssign (x : string)
-| SIf | SElse | SEndIf | SLoop | SEndLoop | SSelect | SCase | SDefault | SEndSelect | SReturn | SGoBody | SEndGo | SMissing.
+| SIf | SElse | SEndIf | SLoop | SEndLoop | SSelect | SCase | SDefault | SEndSelect | SReturn | SGoBody | SEndGo | SMissing
+| SContinue | SBreak.
 
 Definition sev_eqb (a b : sev) : bool :=
   match a, b with
@@ -22,7 +23,8 @@ Definition sev_eqb (a b : sev) : bool :=
   | SClose x, SClose y | SDeferClose x, SDeferClose y | SRecv x, SRecv y | SSend x, SSend y
   | SCall x, SCall y | SDeferCall x, SDeferCall y | SGo x, SGo y | SYield x, SYield y | SAssign x, SAssign y => String.eqb x y
   | SIf, SIf | SElse, SElse | SEndIf, SEndIf | SLoop, SLoop | SEndLoop, SEndLoop | SSelect, SSelect | SCase, SCase
-  | SDefault, SDefault | SEndSelect, SEndSelect | SReturn, SReturn | SGoBody, SGoBody | SEndGo, SEndGo | SMissing, SMissing => true
+  | SDefault, SDefault | SEndSelect, SEndSelect | SReturn, SReturn | SGoBody, SGoBody | SEndGo, SEndGo | SMissing, SMissing
+  | SContinue, SContinue | SBreak, SBreak => true
   | _, _ => false
   end.
 
@@ -125,3 +127,30 @@ Definition wf_C05 (iput iupdate iremove iget iflush pflush commit sput sremove :
 Definition fc_method_ok (l : list sev) : bool :=
   subseq [SLock "c.lock"; SDeferUnlock "c.lock"] l && negb (occurs (SUnlock "c.lock") l) && guarded "c.lock" any_assign l.
 Definition wf_C14 (ms : list (list sev)) : bool := forallb fc_method_ok ms.
+
+(* ---- C06 / C13: the location protocol of ConcGC.v - lookups are retried, the index is changed by compare-and-swap only ---- *)
+Definition count_calls (f : string) (l : list sev) : nat := List.length (filter (sev_eqb (SCall f)) l).
+Fixpoint drop_until (a : sev) (l : list sev) : list sev :=
+  match l with [] => [] | e :: l' => if sev_eqb a e then l' else drop_until a l' end.
+Fixpoint take_until (b : sev) (l : list sev) : list sev :=
+  match l with [] => [] | e :: l' => if sev_eqb b e then [] else e :: take_until b l' end.
+Definition segment (a b : sev) (l : list sev) : list sev := take_until b (drop_until a l).
+Definition wf_C06 (get has size sput sremove reap pgc : list sev) : bool :=
+  (* readers: the index lookup and the primary read are in ONE loop which is re-entered after the unusable-location test; an
+     entry is removed only if the index still has the location that was read (RemoveIfBlock), never unconditionally *)
+  subseq [SLoop; SCall "s.index.Get"; SCall "s.index.Primary.Get"; SCall "s.index.RemoveIfBlock"; SContinue; SEndLoop] get
+  && negb (occurs (SCall "s.index.Remove") get)
+  && subseq [SLoop; SCall "s.index.Get"; SCall "s.index.Primary.GetIndexKey"; SCall "s.index.Get"; SIf; SContinue; SEndIf; SEndLoop] has
+  && subseq [SLoop; SCall "s.index.Get"; SCall "s.index.Primary.GetIndexKey"; SCall "s.index.Get"; SIf; SContinue; SEndIf; SEndLoop] size
+  (* writers: compare-and-swap / compare-and-remove, never the unconditional forms; a failed swap frees the writer's own record *)
+  && negb (occurs (SCall "s.index.Update") sput) && negb (occurs (SCall "s.index.Remove") sput)
+  && subseq [SCall "s.index.Primary.Put"; SCall "s.index.UpdateIfBlock"; SIf; SCall "s.freelist.Put"; SEndIf; SCall "s.freelist.Put"] sput
+  && negb (occurs (SCall "s.index.Remove") sremove) && negb (occurs (SCall "s.index.Update") sremove)
+  && subseq [SCall "s.index.RemoveIfBlock"; SCall "s.freelist.Put"] sremove
+  (* the collector: copy, then compare-and-swap; when the swap fails ONE freelist entry (the copy) and on to the next record,
+     when it succeeds ONE entry (the old location) *)
+  && subseq [SCall "gc.primary.Put"; SCall "gc.updateIndex"; SIf; SCall "gc.freeList.Put"; SContinue; SElse; SEndIf; SCall "gc.freeList.Put"; SEndLoop] reap
+  && Nat.eqb (count_calls "gc.freeList.Put" (segment (SCall "gc.updateIndex") SContinue reap)) 1
+  && Nat.eqb (count_calls "gc.freeList.Put" (drop_until (SCall "gc.updateIndex") reap)) 2
+  (* a cycle writes the primary's pool, applies the freelist, and only then walks the files *)
+  && subseq [SCall "gc.primary.Flush"; SYield "gc.afterFreeList"; SLoop; SCall "gc.primary.Put"; SCall "gc.updateIndex"; SEndLoop] pgc.
